@@ -140,7 +140,15 @@ func init() {
 	Register(&Profile{
 		ID: "C09", Prop: "C09",
 		Rule: "multi-node run: clients L, L2 and remote R (reference server over simnet); 6-17 operations (commit on any node with per-node clock skew, fetch [--depth --force], push [--force / +refspec], pull [--ff modes], merge of a remote-tracking ref, tags appearing on R) x server knobs (table negotiation batch, max packfile size) x client pack size x response chunking; fault-free; after every successful fetch/push: closure, tables within depth, byte-identical objects, I1-I4 on both sides, immediate repeat transfers nothing; non-trivial = >=1 fetch and >=1 push that transferred objects; distinct by plan hash",
-		Gen:  func(seed uint64, tier string) any { return genNetPlan(NewRand(seed), tier, "C09", false) },
+		Gen: func(seed uint64, tier string) any {
+			p := genNetPlan(NewRand(seed), tier, "C09", false)
+			if seed%32 == 0 {
+				// trigger plan of known finding C09-shallow-not-completed
+				p.Ops = []NetOp{{Node: "R", Op: "commit", Branch: "main", Variant: 0}, {Node: "R", Op: "commit", Branch: "main", Variant: 1}, {Node: "R", Op: "commit", Branch: "main", Variant: 2},
+					{Node: "L", Op: "fetch", Depth: 1}, {Node: "R", Op: "commit", Branch: "main", Variant: 3}, {Node: "L", Op: "fetch"}}
+			}
+			return p
+		},
 		Exec: func(t *testing.T, raw json.RawMessage, res *Result) { execNet(t, raw, res, "C09") },
 	})
 	Register(&Profile{
@@ -148,6 +156,20 @@ func init() {
 		Rule: "as C09 with 1-4 network faults (request lost, response lost => duplicate on retry, 500/503 => push back-off on the fake clock, stream error mid-packfile => Fetch retry loop, server restart = session loss, delay): an operation may fail, success implies the postcondition, a failed operation leaves I1-I4 intact on both sides, and once faults stop one more attempt succeeds; non-trivial = >=1 fault fired during a transfer; distinct by plan hash",
 		Gen:  func(seed uint64, tier string) any { return genNetPlan(NewRand(seed), tier, "C09", true) },
 		Exec: func(t *testing.T, raw json.RawMessage, res *Result) { execNet(t, raw, res, "C09") },
+	})
+	Register(&Profile{
+		ID: "C17w", Prop: "C17",
+		Rule: "wire corruption: the multi-node run of C09 with 1-4 replies of the remote truncated or bit-flipped in simnet (JSON, packfiles, error bodies) during fetch / pull / push; the client must return (error or success) without panic or hang, success implies the C09 postcondition, a rejected reply leaves I1-I4 intact and no ref pointing at incomplete history; non-trivial = >=1 corruption fired; distinct by plan hash",
+		Gen: func(seed uint64, tier string) any {
+			r := NewRand(seed)
+			p := genNetPlan(r, tier, "C09", false)
+			nf := r.Range(1, 4)
+			for i := 0; i < nf; i++ {
+				p.Faults = append(p.Faults, NetFault{At: r.Range(1, 40), Kind: Pick(r, []string{"truncate", "flip", "flip"}), Arg: r.Range(0, 5000)})
+			}
+			return p
+		},
+		Exec: func(t *testing.T, raw json.RawMessage, res *Result) { execNet(t, raw, res, "C17") },
 	})
 	Register(&Profile{
 		ID: "C10", Prop: "C10",
@@ -256,6 +278,8 @@ type netNode struct {
 }
 
 func execNet(t *testing.T, raw json.RawMessage, res *Result, focus string) {
+	pfx := strings.ToLower(focus)
+	c09 := focus == "C09" || focus == "C17"
 	var p NetPlan
 	if err := json.Unmarshal(raw, &p); err != nil {
 		res.Invalid("plan: %v", err)
@@ -350,7 +374,7 @@ func execNet(t *testing.T, raw json.RawMessage, res *Result, focus string) {
 				if c == "I4-branch-without-table" {
 					continue
 				}
-				res.Violate("c09-"+c, "%s: node %s: %s", when, name, d)
+				res.Violate(pfx+"-"+c, "%s: node %s: %s", when, name, d)
 				return false
 			}
 			if me := n.Objs.TakeMonErrs(); len(me) > 0 {
@@ -612,7 +636,7 @@ func execNet(t *testing.T, raw json.RawMessage, res *Result, focus string) {
 		}
 
 		// ---------------- C09 oracles
-		if focus == "C09" {
+		if c09 {
 			if !checkBothSides(when) {
 				return
 			}
@@ -626,7 +650,11 @@ func execNet(t *testing.T, raw json.RawMessage, res *Result, focus string) {
 							continue
 						}
 						if c, d := checkHistoryComplete(n.Objs, R.Objs, tr.New, op.Depth, shallowBefore); c != "" {
-							res.Violate("c09-fetch-"+c, "%s (`wrgl %s`, err=%v): ref %s -> %x: %s", when, strings.Join(args, " "), cr.Err, tr.Name, tr.New, d)
+							if c == "table-missing-previously-shallow" && focus != "C09" {
+								res.probe("previously_shallow_not_completed", 1) // judged under C09 only
+								continue
+							}
+							res.Violate(pfx+"-fetch-"+c, "%s (`wrgl %s`, err=%v): ref %s -> %x: %s", when, strings.Join(args, " "), cr.Err, tr.Name, tr.New, d)
 							return
 						}
 					}
@@ -646,11 +674,11 @@ func execNet(t *testing.T, raw json.RawMessage, res *Result, focus string) {
 					}
 					if r2.Err == nil && lastFaultAt <= reqStart {
 						if net.Stats.PackBytes != pb {
-							res.Violate("c09-repeat-transfers", "%s: an immediately repeated fetch received %d packfile bytes", when, net.Stats.PackBytes-pb)
+							res.Violate(pfx+"-repeat-transfers", "%s: an immediately repeated fetch received %d packfile bytes", when, net.Stats.PackBytes-pb)
 							return
 						}
 						if w.LogLen() != logLen {
-							res.Violate("c09-repeat-writes", "%s: an immediately repeated fetch performed %d store writes (first: %s %s)", when, w.LogLen()-logLen, w.Log[logLen].Op, FmtKey(w.Log[logLen].Key))
+							res.Violate(pfx+"-repeat-writes", "%s: an immediately repeated fetch performed %d store writes (first: %s %s)", when, w.LogLen()-logLen, w.Log[logLen].Op, FmtKey(w.Log[logLen].Key))
 							return
 						}
 					}
@@ -661,7 +689,7 @@ func execNet(t *testing.T, raw json.RawMessage, res *Result, focus string) {
 						continue
 					}
 					if c, d := checkHistoryComplete(R.Objs, n.Objs, tr.New, 0, nil); c != "" {
-						res.Violate("c09-push-"+c, "%s: remote ref %s -> %x: %s", when, tr.Name, tr.New, d)
+						res.Violate(pfx+"-push-"+c, "%s: remote ref %s -> %x: %s", when, tr.Name, tr.New, d)
 						return
 					}
 				}
@@ -681,11 +709,11 @@ func execNet(t *testing.T, raw json.RawMessage, res *Result, focus string) {
 					accepted := bytes.Equal(rRefsAfter["heads/"+op.Branch], refsAfter["heads/"+op.Branch])
 					if r2.Err == nil && accepted {
 						if w.LogLen() != logLen {
-							res.Violate("c09-repeat-writes", "%s: an immediately repeated push performed %d store writes", when, w.LogLen()-logLen)
+							res.Violate(pfx+"-repeat-writes", "%s: an immediately repeated push performed %d store writes", when, w.LogLen()-logLen)
 							return
 						}
 						if net.Stats.BytesUp-up > 4096 {
-							res.Violate("c09-repeat-transfers", "%s: an immediately repeated push uploaded %d bytes", when, net.Stats.BytesUp-up)
+							res.Violate(pfx+"-repeat-transfers", "%s: an immediately repeated push uploaded %d bytes", when, net.Stats.BytesUp-up)
 							return
 						}
 					}
@@ -696,7 +724,7 @@ func execNet(t *testing.T, raw json.RawMessage, res *Result, focus string) {
 	}
 
 	// bounded liveness: once faults have stopped, one more fetch succeeds
-	if focus == "C09" && len(p.Faults) > 0 {
+	if c09 && len(p.Faults) > 0 {
 		net.Faults = nil
 		n := nodes["L"]
 		n.Clock += time.Hour
@@ -707,11 +735,11 @@ func execNet(t *testing.T, raw json.RawMessage, res *Result, focus string) {
 			return
 		}
 		if cr.Err != nil && !strings.Contains(cr.Err.Error(), "failed to fetch some refs") {
-			res.Violate("c09-liveness", "after the last fault, `wrgl fetch origin` still fails: %v\n%s", cr.Err, cr.Stdout)
+			res.Violate(pfx+"-liveness", "after the last fault, `wrgl fetch origin` still fails: %v\n%s", cr.Err, cr.Stdout)
 			return
 		}
 		if net.Stats.Requests-reqs > 64 {
-			res.Violate("c09-liveness", "final fetch needed %d requests", net.Stats.Requests-reqs)
+			res.Violate(pfx+"-liveness", "final fetch needed %d requests", net.Stats.Requests-reqs)
 			return
 		}
 		if !checkBothSides("after final fetch") {
@@ -721,7 +749,7 @@ func execNet(t *testing.T, raw json.RawMessage, res *Result, focus string) {
 		for name, sum := range refs {
 			if strings.HasPrefix(name, "remotes/origin/") {
 				if c, d := checkHistoryComplete(n.Objs, R.Objs, sum, 0, shallowOf(n.Objs)); c != "" && c != "table-missing-previously-shallow" {
-					res.Violate("c09-fetch-"+c, "after the final fault-free fetch: ref %s: %s", name, d)
+					res.Violate(pfx+"-fetch-"+c, "after the final fault-free fetch: ref %s: %s", name, d)
 					return
 				}
 			}
@@ -739,7 +767,7 @@ func execNet(t *testing.T, raw json.RawMessage, res *Result, focus string) {
 		res.probe("server_restart", srv.Restarts)
 	}
 	switch focus {
-	case "C09":
+	case "C09", "C17":
 		if len(p.Faults) > 0 {
 			fired := 0
 			for _, v := range net.Stats.Fired {
